@@ -270,6 +270,21 @@ ILL_FORMED = [
     ('empty fe() { }', 'int[] a = [fe()];'),
     ('', 'int a[3]; a = a;'),
     ('', 'write(([] is int[]).length);'),
+    ('', '[];'),
+    ('', 'write([].length);'),
+    ('', "if ([]) { write('y'); } else { write('n'); }"),
+    ('', 'bool eb = not []; write(eb);'),
+    ('', 'write([] is bool);'),
+    ('', 'while ([]) { }'),
+    ('', 'write([] and true);'),
+    ('empty takes(const int[] a) { write(a.length); }', 'takes([]);'),
+    ('const bool[] gempty = [];', 'write(gempty.length);'),
+    ('string[] gse = [];', 'write(gse.length);'),
+    ('empty write(int a, int b) { write(a); write(b); }', 'write(1, 2);'),
+    ('empty all_is_broken(string why) { write(why); }', 'all_is_broken("x"); write("after");'),
+    ('int sleep(byte b) { return b; }', "write(sleep('a'));"),
+    ('', 'write("abc"[1]); write("abc".length); write(("abc" is byte[])[2]);'),
+    ('', "write([1, 2, 3][1]); write(['a', 'b'].length); write([true][0]);"),
     ('', 'writeln([][0]);'),
     ('', 'int x = 1 / 0;'),
     ('const int z = 0;', 'writeln(5 % z);'),
